@@ -50,3 +50,54 @@ func (f verifChunker) getNextChunk() ([]byte, error) { return f() }
 func VerifNewChunkReader(next func() ([]byte, error)) io.Reader {
 	return newChunkReader(verifChunker(next))
 }
+
+// VerifPure calls one of the package-private pure helpers by name, with a uniform argument list (unused
+// arguments are ignored), so that the harness can compare each of them with the evaluation of its
+// translated body. Fixed-size array arguments are taken from slices of exactly that size.
+func VerifPure(name string, v Version, n uint64, flag bool, a, b, c []byte) ([]byte, error) {
+	nonce := func(x Nonce) ([]byte, error) { return x[:], nil }
+	switch name {
+	case "checkChunkState":
+		// chunk length in n, block index as the big-endian bytes of a
+		var idx uint64
+		for _, x := range a {
+			idx = idx<<8 | uint64(x)
+		}
+		return nil, checkChunkState(v, int(int64(n)), idx, flag)
+	case "encryptionBlockNumber.check":
+		return nil, encryptionBlockNumber(n).check()
+	case "checkKnownVersion":
+		return nil, checkKnownVersion(v)
+	case "attachedSignatureInput":
+		return attachedSignatureInput(v, headerHash(sliceToByte64(a)), b, packetSeqno(n), flag), nil
+	case "detachedSignatureInput":
+		return detachedSignatureInput(headerHash(sliceToByte64(a)), b), nil
+	case "detachedSignatureInputFromHash":
+		return detachedSignatureInputFromHash(a), nil
+	case "computePayloadAuthenticator":
+		x := computePayloadAuthenticator(macKey(sliceToByte32(a)), payloadHash(sliceToByte64(b)))
+		return x[:], nil
+	case "computePayloadHash":
+		x := computePayloadHash(v, headerHash(sliceToByte64(a)), Nonce(sliceToByte24(b)), c, flag)
+		return x[:], nil
+	case "computeSigncryptionSignatureInput":
+		return computeSigncryptionSignatureInput(headerHash(sliceToByte64(a)), Nonce(sliceToByte24(b)), flag, c), nil
+	case "nonceForSenderKeySecretBox":
+		return nonce(nonceForSenderKeySecretBox())
+	case "nonceForPayloadKeyBoxV2":
+		return nonce(nonceForPayloadKeyBoxV2(n))
+	case "nonceForPayloadKeyBox":
+		return nonce(nonceForPayloadKeyBox(v, n))
+	case "nonceForDerivedSharedKey":
+		return nonce(nonceForDerivedSharedKey())
+	case "nonceForMACKeyBoxV1":
+		return nonce(nonceForMACKeyBoxV1(headerHash(sliceToByte64(a))))
+	case "nonceForMACKeyBoxV2":
+		return nonce(nonceForMACKeyBoxV2(headerHash(sliceToByte64(a)), flag, n))
+	case "nonceForChunkSecretBox":
+		return nonce(nonceForChunkSecretBox(encryptionBlockNumber(n)))
+	case "nonceForChunkSigncryption":
+		return nonce(nonceForChunkSigncryption(headerHash(sliceToByte64(a)), flag, encryptionBlockNumber(n)))
+	}
+	panic("VerifPure: unknown function " + name)
+}
